@@ -199,12 +199,17 @@ Proof. vm_compute. reflexivity. Qed.
      '<+03>-3'                      quoted abbreviation (POSIX.1-2001)            -> ValueError  F-C08-quoted-names
      'LMT0:25:21'                   offset with a seconds field                   -> ValueError  F-C08-offset-seconds
      'EST5EDT,M3.2.0/-1,M11.1.0/2'  signed rule time (POSIX.1-2024, glibc)        -> ValueError  F-C08-signed-rule-time
-     'xxx,1,2,3,4,5,6,7,8,9'        deprecated format without a standard offset   -> TypeError   F-C08-depcomma-typeerror *)
+     'xxx,1,2,3,4,5,6,7,8,9'        deprecated format without a standard offset   -> ValueError (a POSITIVE
+                                    statement since /repo b3bd589; was TypeError: F-C08-depcomma-typeerror, fixed) *)
 Lemma posix_forms_rejected_lemma :
   tzstr_init [60; 43; 48; 51; 62; 45; 51] false = Err EValue /\
   tzstr_init [76; 77; 84; 48; 58; 50; 53; 58; 50; 49] false = Err EValue /\
   tzstr_init [69; 83; 84; 53; 69; 68; 84; 44; 77; 51; 46; 50; 46; 48; 47; 45; 49; 44; 77; 49; 49; 46; 49;
-              46; 48; 47; 50] false = Err EValue /\
-  tzstr_init [120; 120; 120; 44; 49; 44; 50; 44; 51; 44; 52; 44; 53; 44; 54; 44; 55; 44; 56; 44; 57] false
-    = Err EType.
+              46; 48; 47; 50] false = Err EValue.
 Proof. repeat split; vm_compute; reflexivity. Qed.
+
+(* 'xxx,1,2,3,4,5,6,7,8,9': malformed -> ValueError (positive since /repo b3bd589) *)
+Lemma deprecated_without_offset_rejected_lemma :
+  tzstr_init [120; 120; 120; 44; 49; 44; 50; 44; 51; 44; 52; 44; 53; 44; 54; 44; 55; 44; 56; 44; 57] false
+    = Err EValue.
+Proof. vm_compute; reflexivity. Qed.
